@@ -48,6 +48,8 @@ def main(ctx):
                     for cht in vals:
                         jobs.append({"sc": "close", "role": role, "start": start, "cht": cht,
                                      "sdt": vals[-1], "how": "fail"})
+                    jobs.append({"sc": "close", "role": role, "start": start, "cht": vals[-1] + 1,
+                                 "sdt": vals[-1] + 1, "autoping": True})
                 for I in vals:
                     for T in vals + [0]:
                         for restart in (True, False):
@@ -72,7 +74,7 @@ def main(ctx):
               "close:responsive_ok", "drop:silent_dropped", "drop:responsive_ok",
               "ping:silent_dropped", "ping:responsive_ok", "ping:data_counts",
               "ping:data_does_not_count", "after_closed_checked", "pings_seen", "disabled_ok",
-              "stalled_peer_jobs", "ping:fragment_as_traffic", "proxy_jobs", "close_started_by_failing",
+              "stalled_peer_jobs", "ping:fragment_as_traffic", "proxy_jobs", "close_started_by_failing", "close_with_autoping",
               "peerclose_echo"):
         ctx.require(n)
 
@@ -299,6 +301,12 @@ def job(a):
             count("close_started_by_failing")
         if role == "client":
             opts["serverConnectionDropTimeout"] = sdt
+        if a.get("autoping"):
+            # automatic pings are configured as well: their timers must not interfere with the closing
+            # handshake (no ping can be sent any more once closing has begun)
+            opts["autoPingInterval"] = 1
+            opts["autoPingTimeout"] = 1
+            count("close_with_autoping")
         for t1 in (0.0, 0.5):
             for reply in ([None] if stalled else frange(0, cht + 0.75) + [None]):
                 drops = [None] if role == "server" or reply is None or reply > cht else \
